@@ -99,6 +99,12 @@ def cmd_check(pid, tier, args):
   print('SEED %d property=%s tier=%s groups=%d runs/group=%d nproc=%d repo=%s' % (
     seed, pid, tier, groups, rpg, runner.NPROC, os.environ.get('VERIF_REPO', '/repo')))
   sys.stdout.flush()
+  import glob
+  for old in glob.glob(os.path.join(runner.REPLAY_DIR, '%s-*.json' % pid)):
+    try:
+      os.unlink(old)        # replay files of an earlier run of this check
+    except OSError:
+      pass
   merged = runner.drive(mod, tier, seed, groups, rpg, budget,
                         {'minimise': not args.no_minimise})
   extra = None
